@@ -61,6 +61,9 @@ def plan(tier, seed):
     shards.append(("emb0", 3, 3, 0, 27))
     # deep forests: two labeled samples and a chain of unlabeled ones with growing gaps (each is reached
     # through the previous one), 3..30 of them, in ascending, descending and interleaved row order
+    # no unlabeled samples, the empty set spelt as [], (), np.array([]) and np.empty((0, d))
+    shards.append(("empty", "1d"))
+    shards.append(("empty", "2d"))
     shards.append(("chain", 3, 16))
     shards.append(("chain", 16, 31))
     return shards
@@ -92,6 +95,16 @@ def programs(shard, seed):
             for lab in E.labelings(nl):
                 yield {"model": "SemiSupervisedOPF", "mode": "pre", "W": W,
                        "labels": list(E.rename_classes(lab, seed)), "n_unlabeled": nu}
+    elif kind == "empty":
+        pts = E.lattice(shard[1], seed)
+        nseq = E.n_sequences(len(pts), 3)
+        for si in range(0, nseq, 1 if shard[1] == "1d" else 7):
+            seq = E.sequence_at(len(pts), 3, si)
+            X = [list(pts[i]) for i in seq]
+            for lab in E.labelings(3):
+                for sp in ("list", "tuple", "array1d", "empty2d"):
+                    yield {"model": "SemiSupervisedOPF", "mode": "features", "X": X, "metric": "euclidean",
+                           "labels": list(E.rename_classes(lab, seed)), "n_unlabeled": 0, "empty_as": sp}
     elif kind == "chain":
         _, a, b = shard
         sc = [1.0, 0.5, 2.0, 3.0][seed % 4] if seed else 1.0
